@@ -62,6 +62,17 @@ Resolve(m, q0) ==
 ReqQs == { q \in 1..NPaths : NormalForm(PathSeq[q]) }
 ResolveAgree == \A m \in ReqMethods : \A q \in ReqQs : QuickMatch(m, q) = Resolve(m, q)
 
+\* compact code of a resolution (used by the exports): one integer per (method, path) cell
+\*   0 notfound | r direct | 100+r via HEAD->GET | 200+r via fallback | 1000+bitmask(allowed methods in Nine order)
+Pow2(n) == 2 ^ n
+Mask(S) == LET bit(i) == IF Nine[i] \in S THEN Pow2(i - 1) ELSE 0
+           IN bit(1) + bit(2) + bit(3) + bit(4) + bit(5) + bit(6) + bit(7) + bit(8) + bit(9)
+Code(res) == CASE res.kind = "notfound" -> 0
+               [] res.kind = "notallowed" -> 1000 + Mask(res.allow)
+               [] res.via = "direct" -> res.r
+               [] res.via = "head" -> 100 + res.r
+               [] res.via = "fallback" -> 200 + res.r
+
 \* default responses (dispatch.go): status, Allow header (sorted, ", "-joined), for the harness projection
 Status(res, m) == CASE res.kind = "route" -> 200
                     [] res.kind = "notallowed" -> IF m = "OPTIONS" THEN 200 ELSE 405
